@@ -8,6 +8,7 @@ import Driver.Util
                rank does; rand: a seeded random in-flight message each time; with `rand`
                a few random deliveries also happen after every `u`/`x`)
       `F:i,j`  all_find({i,j,..})  (compress)     `A`  all_compress
+      `K`      clear(): barrier as `B`, then `DSet.clear` (callbacks / merges / issued restart)
       `D`      emit a section `d item:rank:parent:root ... ; n <num_sets> <size> ; c a:b ... ; m <merges> ; ab <0|1> ; st <deliveries>`
     answer: the sections joined by ` | `
   `check item:rank:parent ...`   -> `lex <0|1> closed <0|1>` : the decidable invariants on a dump
@@ -70,6 +71,10 @@ def stepTok (sched : String) (r : Run) (tok : String) : Option Run :=
   | ["B"] => some (drain sched r)
   | ["D"] => some { r with out := section_ r :: r.out }
   | ["A"] => some { r with s := compressAll r.s }
+  | ["K"] =>
+    -- clear(): the barrier first (deliver until nothing is in flight), then `DSet.clear`
+    let r := drain sched r
+    some { r with s := clear r.s }
   | ["F", l] => do
     let l ← natsOf l
     pure { r with s := l.foldl compress r.s }
